@@ -181,6 +181,27 @@ func (c *srvCase) awaitSweptPushes() {
 	}
 }
 
+// dropPushesOfRemovedGroups: a group can be removed while a relay-push attempt of a publisher that
+// has left is still connecting; that attempt belongs to the removed Group object, a later group of
+// the same name starts its own.
+func (c *srvCase) dropPushesOfRemovedGroups() {
+	present := map[string]bool{}
+	for _, st := range c.streams() {
+		present[st] = true
+	}
+	for k, p := range c.push {
+		if !present[strings.SplitN(k, "|", 2)[0]] {
+			if p.conn != nil {
+				_ = p.conn.Close()
+			}
+			if p.origin != nil {
+				_ = p.origin.Dispose()
+			}
+			delete(c.push, k)
+		}
+	}
+}
+
 func (c *srvCase) doOpSrv(op string) string {
 	f := strings.Split(op, ".")
 	switch f[0] {
@@ -240,6 +261,7 @@ func (c *srvCase) doOpSrv(op string) string {
 		r := c.doOp(op)
 		if r == "-" {
 			c.awaitSweptPushes()
+			c.dropPushesOfRemovedGroups()
 		}
 		return r
 	}
